@@ -1486,3 +1486,96 @@ func init() {
 	I["(*math/rand.rngSource).Seed"] = func(m *Machine, fr *frame, fn *ssa.Function, a []Value) Value { return nil }
 	I["math/rand.Seed"] = func(m *Machine, fr *frame, fn *ssa.Function, a []Value) Value { return nil }
 }
+
+// ---------- text/template (opaque rendering) and sync.Map ----------
+
+type syncMapState struct {
+	keys []string
+	vals map[string]Value
+	vc   []int
+}
+
+func (m *Machine) syncMapOf(p *Value) *syncMapState {
+	if s, ok := m.side[p]; ok {
+		return s.(*syncMapState)
+	}
+	s := &syncMapState{vals: map[string]Value{}}
+	m.side[p] = s
+	return s
+}
+
+func init() {
+	I := intrinsics
+	I["text/template.New"] = func(m *Machine, fr *frame, fn *ssa.Function, a []Value) Value {
+		pt := fn.Signature.Results().At(0).Type()
+		obj := new(Value)
+		*obj = zero(deref(pt))
+		return obj
+	}
+	I["(*text/template.Template).Funcs"] = func(m *Machine, fr *frame, fn *ssa.Function, a []Value) Value { return a[0] }
+	I["(*text/template.Template).Option"] = func(m *Machine, fr *frame, fn *ssa.Function, a []Value) Value { return a[0] }
+	I["(*text/template.Template).Parse"] = func(m *Machine, fr *frame, fn *ssa.Function, a []Value) Value {
+		return tuple{a[0], Iface{}}
+	}
+	// Execute writes an opaque rendering ("<rendered>") to the writer
+	I["(*text/template.Template).Execute"] = func(m *Machine, fr *frame, fn *ssa.Function, a []Value) Value {
+		w := a[1].(Iface)
+		if w.T == nil {
+			m.rtPanic("nil writer")
+		}
+		f := m.findMethod(w, "Write")
+		if f == nil {
+			m.unsupported("template.Execute: writer without Write")
+		}
+		s := "<rendered>"
+		arr := make([]Value, len(s))
+		for i := range arr {
+			arr[i] = byteTerm(s[i])
+		}
+		m.call(fr, 0, f, []Value{w.V, sliceV{a: arr, len: len(arr), cap: len(arr)}}, nil)
+		return Iface{}
+	}
+	I["(*sync.Map).Load"] = func(m *Machine, fr *frame, fn *ssa.Function, a []Value) Value {
+		m.visible("syncmap")
+		s := m.syncMapOf(a[0].(*Value))
+		k, ok := m.concKey(a[1])
+		if !ok {
+			m.unsupported("sync.Map with symbolic key")
+		}
+		m.hbAcquire(m.cur, s.vc)
+		if v, found := s.vals[k]; found {
+			return tuple{v, tTrue}
+		}
+		return tuple{Iface{}, tFalse}
+	}
+	I["(*sync.Map).Store"] = func(m *Machine, fr *frame, fn *ssa.Function, a []Value) Value {
+		m.visible("syncmap")
+		s := m.syncMapOf(a[0].(*Value))
+		k, ok := m.concKey(a[1])
+		if !ok {
+			m.unsupported("sync.Map with symbolic key")
+		}
+		if _, found := s.vals[k]; !found {
+			s.keys = append(s.keys, k)
+		}
+		s.vals[k] = a[2]
+		m.hbRelease(m.cur, &s.vc)
+		return nil
+	}
+	I["(*sync.Map).LoadOrStore"] = func(m *Machine, fr *frame, fn *ssa.Function, a []Value) Value {
+		m.visible("syncmap")
+		s := m.syncMapOf(a[0].(*Value))
+		k, ok := m.concKey(a[1])
+		if !ok {
+			m.unsupported("sync.Map with symbolic key")
+		}
+		m.hbAcquire(m.cur, s.vc)
+		if v, found := s.vals[k]; found {
+			return tuple{v, tTrue}
+		}
+		s.keys = append(s.keys, k)
+		s.vals[k] = a[2]
+		m.hbRelease(m.cur, &s.vc)
+		return tuple{a[2], tFalse}
+	}
+}
